@@ -103,7 +103,9 @@ def _worker(args):
                     v.spec = dict(v.spec, warmup=1)
                     viols.append((i, v.spec, v.to_json()))
             except Exception:
-                errors.append((i, "second execution in the same process: " + traceback.format_exc()))
+                # a library may legitimately make a second run of the same script in one process impossible (say, a
+                # registry that refuses a labware name twice): nothing to judge then
+                stats.probes["second_execution_in_one_process_raised"] += 1
         if not stats.samples and getattr(stats, "last_exec", None) is not None:
             # guarantee at least one written-out case per batch, whatever the module's own sampling rule picked
             stats.samples.append({"note": "first execution of this worker", "spec": stats.last_exec[0]})
